@@ -156,6 +156,14 @@ def run(prog, run, only_restart_rules=False):
             for fld in sorted(state):
                 run.instance(r2)
                 clears = clear_sites(body, fld)
+                # a call of a member helper that clears the field on every path counts as a clear at the call site
+                for ci, cn_ in body.calls():
+                    for h in prog.callee_fns(body, cn_):
+                        if h.entry is None or (h.record or '') != SOCK or h.id == body.id:
+                            continue
+                        hc = clear_sites(h, fld)
+                        if hc and any(h.pos(x) and (h.pos(x)[0] == h.entry or ('b', h.pos(x)[0]) in h.pdom().get(('b', h.entry), set())) for x in hc):
+                            clears.append(ci)
                 if clears and all(any(body.node_dominates(cl, e) for cl in clears) for e in emits):
                     run.ok(r2, body.loc(), '%s cleared before started() in the %s slot%s' % (fld.split('::')[-1], c['signal']['qname'].split('::')[-1], '' if body is slot else ' (through %s)' % body.name))
                 else:
